@@ -1,9 +1,9 @@
 #!/bin/sh
 # usage: goal.sh <file.v relative to coq/> <line>  -- show goals just before <line>
-cd /verif/coq
+cd "$(dirname "$0")/../coq"
 f=$1; n=$2
 tmp=$(dirname $f)/_dbg_$(basename $f)
 head -n $((n-1)) $f > $tmp
 echo "Show. " >> $tmp
-coqc -Q . RW -w -notation-overridden $tmp 2>&1 | tail -${3:-40}
+timeout 300 coqc -Q . RW -w -notation-overridden $tmp 2>&1 | tail -${3:-40}
 rm -f $tmp $(dirname $f)/_dbg_*.vo* $(dirname $f)/_dbg_*.glob $(dirname $f)/._dbg_*.aux
